@@ -54,7 +54,7 @@ def freeze_value(value: Any) -> Any:
         )
     if isinstance(value, set):
         return frozenset(freeze_value(element) for element in value)
-    if isinstance(value, list):
+    if isinstance(value, (list, tuple)):
         return tuple(freeze_value(element) for element in value)
     return value
 
